@@ -18,6 +18,16 @@ earlier secure connections still open, or all in flight at once, through one or 
 object. Every step is compared with the Lean `Backend.session` (the client object threaded through the logins; proved
 history independent) and judged by the same property oracle as a single login: it must behave exactly like that login
 through a fresh client.
+
+The library's own random draws: "logging in yields a connection" is also quantified over what the login path draws at
+random — every PRUDP endpoint's 32-bit connection check (the Kerberos challenge of the secure handshake), its 8-bit
+session id, the 16-bit initial unreliable sequence id of PRUDP v1, the 16-byte ticket key of ticket version 1. Random
+runs never reach their boundary values (one login in 2^32 draws the check 0xFFFFFFFF), so full logins are run with these
+draws pinned (backend_sim.apply_draws on the simulation's wrapper of the library's `random`): every boundary value of each
+kind alone in every band on every transport, client and server side drawing different boundary values, corners of all
+kinds at once, with first-copy datagram loss, under failure scripts (which must still fail), and inside sessions. The Lean
+plan has no draw parameter: the theorems say the login decisions do not depend on them, and every pinned run is compared
+with the plan like any other.
 """
 import itertools, multiprocessing, os, struct, sys
 from concurrent.futures import ThreadPoolExecutor
@@ -120,7 +130,7 @@ def judge(c, o):
     if kind in ("matrix", "loss"):
         exp_addr = (B.AUTH_HOST, B.AUTH_PORT) if c["placeholder"] else (B.SECURE_HOST, B.SECURE_PORT)
         sid = 2 if c["placeholder"] else 1
-        if o["error"] is not None: why = "login through a protocol-following server failed: %s" % o["error"]
+        if o["error"] is not None: why = "login through a protocol-following server failed: %s%s" % (o["error"], " (%s)" % o["error_text"] if o.get("error_text") else "")
         elif len(o["accepts"]) != 1: why = "expected exactly one accepted secure connection, saw %r" % (o["accepts"],)
         elif o["accepts"][0][2] != c["pid"]: why = "secure server authenticated pid %r, issued %r" % (o["accepts"][0][2], c["pid"])
         elif o["handler_pids"] != [c["pid"]] or o["probe"] != c["pid"]: why = "secure server's handler observed pid %r, issued %r" % (o["handler_pids"], c["pid"])
@@ -269,7 +279,96 @@ def build_sessions(rng, quick, first_seed):
         transport = rng.choice(["v0", "v1", "lite"])
         sessions.append(make_session(rng, seed, version, kinds, mode=mode, nclients=rng.choice([1, 1, 2]), transport=transport,
                                      loss=(mode == "seq" and transport != "lite" and rng.random() < 0.15)))
+    # sessions whose endpoints draw boundary values (cycles of 1..3 values: the logins of one session draw different ones)
+    for n in range(48 if quick else 400):
+        seed += 1
+        mode = rng.choice(["seq", "hold", "conc"])
+        kinds = [rng.choice(OK_KINDS + OK_KINDS + list(FAIL_FAMILIES)) for _ in range(rng.randint(2, 4))]
+        x = make_session(rng, seed, rng.choice(BANDS), kinds, mode=mode, nclients=rng.choice([1, 1, 2]))
+        x["draws"] = {kind: [rng.choice(DRAW_EDGES[kind]) for _ in range(rng.randint(1, 3))] for kind in ("check", "session", "unrel") if kind == "check" or rng.random() < 0.5}
+        sessions.append(x)
     return sessions
+
+
+# ---------------------------------------------------------------------------------------------------------------
+# boundary values of the random draws the login path makes (see backend_sim.apply_draws)
+
+DRAW_VALUES = {
+    "check": [0, 1, 0x7FFFFFFF, 0x80000000, 0xFFFFFFFE, 0xFFFFFFFF, 0xFF, 0x100, 0xFFFF, 0x10000, 0x00FFFFFF, 0xFF000000],
+    "session": [0, 1, 0x7F, 0x80, 0xFE, 0xFF],
+    "unrel": [0, 1, 0x7FFF, 0x8000, 0xFFFE, 0xFFFF],
+}
+DRAW_EDGES = {"check": [0, 1, 0x7FFFFFFF, 0x80000000, 0xFFFFFFFE, 0xFFFFFFFF], "session": [0, 1, 0xFE, 0xFF], "unrel": [0, 1, 0xFFFE, 0xFFFF]}
+DRAW_NAMES = {"check": "connection check", "session": "session id", "unrel": "initial unreliable sequence id", "token": "Kerberos ticket key bytes"}
+
+
+def describe_draws(draws):
+    parts = []
+    for kind in ("check", "session", "unrel"):
+        vs = draws.get(kind)
+        if vs: parts.append("%s %s" % (DRAW_NAMES[kind], "0x%X" % vs[0] if len(vs) == 1 else "alternating " + "/".join("0x%X" % v for v in vs) + " from endpoint to endpoint"))
+    if draws.get("token") is not None: parts.append("every byte of the drawn ticket key 0x%s" % draws["token"].upper())
+    return "the library's own random draws pinned to boundary values (every PRUDP endpoint of the login: %s)" % "; ".join(parts)
+
+
+def build_draw_cases(rng, quick, i):
+    """full logins (and failure scripts) with the library's random draws at their boundaries"""
+    cases = []
+    def case(version, transport, draws, **over):
+        nonlocal i
+        i += 1
+        c = base_case(i, version, over.pop("extra", rng.random() < 0.5), over.pop("kd", rng.choice([0, 1, 1])), rng.choice([16, 32]), over.pop("tv", rng.choice([0, 1])),
+                      rng.choice([4, 8]), over.pop("ffs", rng.random() < 0.5), over.pop("placeholder", rng.random() < 0.5), transport, rng.randbytes(64))
+        c["kind"] = "matrix"; c["draws"] = draws
+        c.update(over)
+        cases.append(c)
+        return c
+    reps = 1 if quick else 4
+    versions = lambda: BANDS if quick else BANDS + [rng.choice([0, 39999, 40399, 40401, 50000])]
+    for _ in range(reps):
+        # each boundary value of each kind alone, drawn by every endpoint: band x transport exhaustive
+        for v in DRAW_VALUES["check"]:
+            for version, transport in itertools.product(versions(), ["v0", "v1", "lite"]):
+                case(version, transport, {"check": [v]})
+        for v in DRAW_VALUES["session"]:
+            for version, transport in itertools.product(versions(), ["v0", "v1", "lite"]):
+                case(version, transport, {"session": [v]})
+        for v in DRAW_VALUES["unrel"]:
+            for version in versions():
+                case(version, "v1", {"unrel": [v]})                                   # only PRUDP v1 over UDP draws it
+        for tok, version, transport in itertools.product(["00", "ff"], BANDS, ["v0", "v1", "lite"]):
+            case(version, transport, {"token": tok}, tv=1)                            # only ticket version 1 draws it
+        # the two sides of a connection drawing different boundary values (a 2-cycle: client a / server b on both connections)
+        for kind in ("check", "session"):
+            edges = DRAW_EDGES[kind]
+            for a, b in itertools.permutations(edges, 2):
+                if quick and rng.random() < (0.5 if kind == "check" else 0.0): continue
+                case(rng.choice(BANDS), rng.choice(["v0", "v1", "lite"]), {kind: [a, b]})
+        # all kinds at once: the corners, then random mixes of boundary values with cycles of 1..3
+        for a, b, c3 in itertools.product([0, 0xFFFFFFFF], [0, 0xFF], [0, 0xFFFF]):
+            for transport in ["v0", "v1", "lite"]:
+                case(rng.choice(BANDS), transport, {"check": [a], "session": [b], "unrel": [c3], "token": rng.choice(["00", "ff"])})
+        for _ in range(36):
+            draws = {kind: [rng.choice(DRAW_VALUES[kind]) for _ in range(rng.randint(1, 3))] for kind in ("check", "session", "unrel") if rng.random() < 0.8}
+            if rng.random() < 0.3: draws["token"] = rng.choice(["00", "ff"])
+            if not draws: draws = {"check": [rng.choice(DRAW_EDGES["check"])]}
+            case(rng.choice(BANDS + [0, 39999, 40399, 40401]), rng.choice(["v0", "v1", "lite"]), draws)
+        # boundary draws while the first copy of every datagram is lost (retransmitted SYN / CONNECT carry the same challenge)
+        for v, transport in itertools.product(DRAW_EDGES["check"], ["v0", "v1"]):
+            c = case(rng.choice(BANDS), transport, {"check": [v], "session": [rng.choice(DRAW_EDGES["session"])]}, kd=1)
+            c["loss"] = True; c["kind"] = "loss"
+        # failure scripts stay failures whatever is drawn
+        for fault in ["wrong-password", "first-error-result", "second-rmc-error", "garbled-ticket", "stale", "wrong-server-key", "wrong-source"]:
+            for version in BANDS:
+                draws = {"check": [rng.choice(DRAW_EDGES["check"])], "session": [rng.choice(DRAW_EDGES["session"])]}
+                c = case(version, rng.choice(["v0", "v1", "lite"]), draws, ffs=(fault != "second-rmc-error") and rng.random() < 0.5)
+                if fault == "wrong-password":
+                    c["source_key"] = None; c["source_key_text"] = ""; c["password"] = c["server_password"] + "x"
+                else:
+                    c["fault"] = fault
+                    if c.get("password") is None and not c["source_key"]: c["password"] = c["server_password"]
+                c["kind"] = "fail:" + fault
+    return cases, i
 
 
 def run(ctx):
@@ -278,7 +377,8 @@ def run(ctx):
     drv = ctx.driver()
     ctx.rule = ("one case = one end-to-end login in the deterministic simulation (real backend.connect/login, real generated "
                 "Authentication(NX)Server scripted per case, real secure rmc.serve with a key); the 1152-point configuration matrix is exhaustive, "
-                "failure scripts (%d kinds) and first-copy datagram loss run on sub-matrices; sessions = 2..5 logins through ONE BackEndClient and Settings object "
+                "failure scripts (%d kinds) and first-copy datagram loss run on sub-matrices; full logins with the library's own random draws (connection check, session id, "
+                "initial unreliable id, ticket key) pinned to boundary values, alone / mixed per endpoint / combined / with loss / under failure scripts; sessions = 2..5 logins through ONE BackEndClient and Settings object "
                 "(all ordered pairs of %d step kinds per band + random longer ones; sequential / earlier connections held / concurrent; 1-2 clients), one case per login; "
                 "each login is compared with the Lean plan (session: the k-th plan of Backend.session) and judged by the property oracle" % (len(FAILURES), len(STEP_KINDS)))
     cases = []
@@ -323,6 +423,9 @@ def run(ctx):
         c["loss"] = True; c["kind"] = "loss"
         cases.append(c)
 
+    draw_cases, i = build_draw_cases(rng, quick, i)
+    cases += draw_cases
+
     sessions = build_sessions(rng, quick, i)
     with multiprocessing.get_context("fork").Pool(min(16, os.cpu_count() or 4)) as pool:
         pending = pool.map_async(session_worker, sessions, chunksize=4)
@@ -357,7 +460,7 @@ def run(ctx):
         mc = canon_model(model)
         oc = canon_obs(o)
         ctx.case(key=(kind, c["version"], c["extra"], c["kd"], c["key_size"], c["ticket_version"], c["pid_size"], c["first_for_secure"], c["placeholder"], c["transport"], c.get("fault"), c["seed"]),
-                 nontrivial=True, tag=kind + ":" + (mc[2].split(" ")[0] if mc else "bad-op") + (":second" if mc and "requestTicket" in mc[0] else ""),
+                 nontrivial=True, tag=("draws:" + "+".join(sorted(c["draws"])) + ":" if c.get("draws") else "") + kind + ":" + (mc[2].split(" ")[0] if mc else "bad-op") + (":second" if mc and "requestTicket" in mc[0] else ""),
                  sample={"case": {k: (v.hex() if isinstance(v, bytes) else v) for k, v in c.items() if k not in ("session_key",)}, "model": model[:200], "observed": list(oc)} if ctx.evaluations % 331 == 0 else None)
         if mc != oc:
             diffs.append((c, o, model, oc))
@@ -393,7 +496,7 @@ def run(ctx):
     ctx.extra["session_correspondence_diffs"] = len(sdiffs)
     ctx.extra["session_oracle_failures"] = len(sfails)
     # report the shortest failing sessions first, each with the verdict of the same login through a fresh client
-    sfails.sort(key=lambda f: (len(f[0]["steps"]), f[2] if f[2] is not None else -1))
+    sfails.sort(key=lambda f: (bool(f[0].get("draws")), len(f[0]["steps"]), f[2] if f[2] is not None else -1))
     for x, o, k, why in sfails[:8]:
         kinds = [st["step_kind"] for st in x["steps"]]
         if k is None:
@@ -411,18 +514,38 @@ def run(ctx):
                 k, x["mode"], x["version"], x["kd"], x["transport"], describe_step(c), why,
                 "Other logins in flight" if x["mode"] == "conc" else "Earlier logins through the same client", before or "none",
                 "behaves as the property demands" if alone_why is None else alone_why)
-        ctx.violation(key, text, {"session": _jsonable_session(x), "step": k, "observed": {"steps": [_jsonable(so) for so in o["steps"]], "stray": o["stray"], "error": o["error"]},
+        if x.get("draws"):
+            key += ":draws[%s]" % ",".join("%s=%s" % (kk, "/".join("%X" % v for v in vs)) for kk, vs in sorted(x["draws"].items()))
+            text += " [in this session: %s; the fresh-client comparison run restarts the same cycle of pinned values, so with a cycle of several values its endpoints may draw other members of it]" % describe_draws(x["draws"])
+        ctx.violation(key, text, {"session": _jsonable_session(x), "step": k, "observed": {"steps": [_jsonable(so) for so in o["steps"]], "stray": o["stray"], "error": o["error"], "draws_made": o.get("draws_made")},
                                   "how": "harness/backend_sim.run_session(session) (./check C17 --replay <this file>)"})
     ctx.traces_validated = len(cases) + sum(len(x["steps"]) for x in sessions)
     ctx.exhaustive = True
     ctx.extra["matrix_configurations"] = n_matrix
     ctx.extra["failure_script_runs"] = sum(1 for c in cases if c["kind"].startswith("fail"))
     ctx.extra["loss_runs"] = sum(1 for c in cases if c["kind"] == "loss")
+    ctx.extra["pinned_draw_runs"] = sum(1 for c in cases if c.get("draws"))
+    ctx.extra["pinned_draw_sessions"] = sum(1 for x in sessions if x.get("draws"))
     ctx.extra["correspondence_diffs"] = len(diffs)
     ctx.extra["oracle_failures"] = len(fails)
-    for c, o, why in fails[:25]:
+    # failures that need no pinned draw first, then the simplest pinned ones
+    fails.sort(key=lambda f: sum(len(v) for v in f[0].get("draws", {}).values()))
+    plain = [f for f in fails if not f[0].get("draws")]
+    pinned = [f for f in fails if f[0].get("draws")]
+    ctx.extra["pinned_draw_oracle_failures"] = len(pinned)
+    seen_sig, pinned_sel = set(), []
+    for f in pinned:       # one report per (kinds pinned, transport, what went wrong), the simplest first
+        sig = (tuple(sorted(f[0]["draws"])), f[0]["transport"], f[2][:60])
+        if sig not in seen_sig: seen_sig.add(sig); pinned_sel.append(f)
+    for c, o, why in plain[:25] + pinned_sel[:8]:
         key = "backend:%s:v%d:extra=%d:ffs=%d:placeholder=%d" % (c["kind"], c["version"], c["extra"], c["first_for_secure"], c["placeholder"])
-        ctx.violation(key, why, {"case": _jsonable(c), "observed": _jsonable(o), "how": "harness/backend_sim.run_case(case)"})
+        if c.get("draws"):
+            key += ":draws[%s]" % ",".join("%s=%s" % (k, "/".join("%X" % v for v in vs) if k != "token" else vs) for k, vs in sorted(c["draws"].items()))
+            why = "%s login(%r) over %s, nex.version %d, with %s: %s%s" % (
+                "back-end" if not c.get("loss") else "back-end (first copy of every datagram lost)", c["username"], c["transport"], c["version"], describe_draws(c["draws"]), why,
+                "" if c["kind"].startswith("fail") else "; authentication methods invoked: %s; the secure server admitted: %s" % (
+                    [x.split(" ")[0] for x in o["calls"]], ["pid %r" % a[2] for a in o["accepts"]] or "nobody"))
+        ctx.violation(key, why, {"case": _jsonable(c), "observed": _jsonable(o), "how": "harness/backend_sim.run_case(case) (./check C17 --replay <this file>); case.draws pins the library's random draws, see backend_sim.apply_draws"})
     if sdiffs and not ctx.violations and not ctx.known_hits:
         x, k, model, oc = sdiffs[0]
         ctx.corr_break("backend-session-correspondence", "real BackEndClient logins in sequence and Lean Backend.session disagree on %d of %d session steps" % (len(sdiffs), sum(len(x["steps"]) for x in sessions)),
@@ -445,7 +568,10 @@ def replay(ctx, path):
     c = r["case"]
     for k in ("session_key", "source_key"):
         if isinstance(c.get(k), str): c[k] = bytes.fromhex(c[k])
-    print(backend_sim.run_case(c))
+    o = backend_sim.run_case(c)
+    print({f: o.get(f) for f in ("calls", "keys", "attempts", "accepts", "handler_pids", "client_pid", "probe", "error", "error_text", "draws_made")})
+    if c.get("draws"): print("pinned:", describe_draws(c["draws"]))
+    if "kind" in c: print("property verdict:", judge(c, o) or "holds")
     return 0
 
 
